@@ -64,7 +64,9 @@ class CHECK(core.Check):
                   "C04_runner_table_total, C04_fiat_reports_truth and C04_fiat_tree_sound (at every depth of the master/slave tree, by induction "
                   "over the depth: truthful fiat entries, statuses change only through logged fiats, desire = last write), "
                   "C04_stop_abort_exit_outline, C04_start_enters_outline, C04_exit_order (a start / stop / abort by bid or fiat enters resp. "
-                  "exits the whole outline of nested frames, bottom-up on the way out), C04_failed_start_leaves_stopped, C04_control_is_last_bid (every main-loop "
+                  "exits the whole outline of nested frames, bottom-up on the way out), C04_lower_frame_bids_last_every_visit (in every reached "
+                  "state the entered frames of every framer are none or an outline of its unchanged program; the lower frame's bid is issued "
+                  "after the upper frame's and wins, on every visit), C04_failed_start_leaves_stopped, C04_control_is_last_bid (every main-loop "
                   "send carries the last value written to the target's desire; abort sweep sends ABORT), C04_slaves_only_by_fiat "
                   "(scheduler never sends to a slave; a slave's status changes only inside a fiat on it), C04_bid_writes.")
     LEVEL_NOTE = ("Trusted: Lean kernel; axioms propext, Classical.choice, Quot.sound; hand transcription of framing.Framer.makeRunner, "
@@ -148,6 +150,16 @@ class CHECK(core.Check):
                     {"pre": [[[["R", K]], 1]]},
                     {"re": [["b", 0, None, workers]], "pre": [[[["R", 4]], 2]]},
                     {"en": [["b", 0, None, "me"]]}]})
+        if len(workers) >= 2 and rng.random() < 0.3:
+            # `bid stop X` in the one pass in which X is STARTED: Y starts X and stops it one pass later, before
+            # (Y in front) or after (Y in back) X has run for the first time
+            y, x = rng.sample(workers, 2)
+            framers[x]["sched"], framers[x]["period"] = "inactive", "0"
+            framers[y]["sched"], framers[y]["period"] = "active", "0"
+            framers[y]["order"] = rng.choice(["front", "back"])
+            framers[x]["order"] = "mid"
+            framers[y]["frames"] = [{"over": None, "be": [], "en": [["b", 1, None, [x]]], "re": [], "ex": [], "pre": [[[["R", 1]], 1]]},
+                                    {"over": None, "be": [], "en": [["b", 0, None, [x]]], "re": [], "ex": [], "pre": []}]
         return {"P": "1/8", "stamp": rng.choice(["0/1", "0/1", "1/2"]), "framers": framers}
 
     def generate(self, rng, n, tier):
@@ -250,6 +262,10 @@ class CHECK(core.Check):
                 # frames are entered top-down and exited innermost first
                 i, f = int(t[1]), int(t[2])
                 if t[3] == "e":
+                    over = case["framers"][i]["frames"][f].get("over")
+                    if (entered[i][-1:] or [None])[0] != over and not (over is None and not entered[i]):
+                        return "framer %d enters frame %d (over %s) while its innermost entered frame is %s" % (
+                            i, f, over, entered[i][-1:] or None)
                     entered[i].append(f)
                 else:
                     if not entered[i] or entered[i][-1] != f:
@@ -301,6 +317,27 @@ class CHECK(core.Check):
                 status[sl] = st
                 if st in (0, 3) and entered[sl]:
                     return "slave %d is left in status %d by a fiat with frames %s still entered" % (sl, st, entered[sl])
+        # a bid is delivered at the target's next due pass: a scheduled framer of period 0 is run in every pass
+        # until it is aborted
+        try:
+            ticks = int([l for l in out if l.startswith("ticks")][0].split()[1])
+        except Exception:
+            ticks = -1
+        evs = [l.split() for l in out if l.startswith("E L ")]
+        for i in bd.taskables(case):
+            mine = [e for e in evs if int(e[3]) == i]
+            if Fraction(case["framers"][i]["period"]) != 0 or any(e[7] != "0/1" for e in mine):
+                continue
+            passes = [int(e[2]) for e in mine]
+            end = ticks
+            for e in mine:
+                if e[6] == "y3":
+                    end = int(e[2])
+                    break
+            want = list(range(0, end + 1)) if out[0] != "fuel" else list(range(0, min(end + 1, ticks)))
+            if passes[:len(want)] != want:
+                missing = [n_ for n_ in want if n_ not in passes][:1]
+                return "framer %d (period 0) was due in pass %s but was not run" % (i, missing[0] if missing else "?")
         if out[0] == "fuel":
             return None       # cut by the pass budget: nothing more to say (the model must say `fuel` too)
         # final statuses: nothing changed a status outside a send / a fiat
